@@ -63,6 +63,7 @@ type cursorQuery struct {
 	CtxErrAtNF error // caller ctx error when the final Next was invoked
 	CtxErrAfter error // caller ctx error right after the final Next returned
 	ClosedByMe bool  // the consumer (or side closer) called Close before Next returned false
+	CtxErrAtClose error // caller ctx error when the first such Close was invoked
 	closeStep  int
 	Err        error
 	ErrSeen    bool
@@ -300,6 +301,9 @@ func (st *cursorState) client(name string, qs []*cursorQuery) {
 			simrt.GoNamed("closer-"+cq.Tag, func() {
 				simrt.Gate("op", "side-close "+cq.Tag, nil)
 				if !cq.NextFalse {
+					if !cq.ClosedByMe {
+						cq.CtxErrAtClose = cq.ctx.Err()
+					}
 					cq.ClosedByMe = true
 				}
 				if err := res.Close(); err != nil {
@@ -334,6 +338,9 @@ func (st *cursorState) consume(cq *cursorQuery) {
 	res := cq.res
 	closeNow := func() {
 		if !cq.NextFalse {
+			if !cq.ClosedByMe {
+				cq.CtxErrAtClose = cq.ctx.Err()
+			}
 			cq.ClosedByMe = true
 		}
 		if err := res.Close(); err != nil {
@@ -821,12 +828,17 @@ func (st *cursorState) evaluate() {
 					r.Violate("C20", "error-without-failure", "query %s completed with Err() = %v although none of its store calls failed and it was neither cancelled nor closed", cq.Tag, cq.Err)
 				}
 			}
-			if cq.ClosedByMe && !cancelled {
+			if cq.ClosedByMe && !cancelled && cq.CtxErrAtClose == nil {
 				// R5: after a deliberate Close, Err is nil or made of injected sentinels only.
 				if !errors.Is(cq.Err, ErrInjected) {
 					r.Violate("C20", "close-produced-error", "query %s was closed deliberately and Err() = %v is not one of the injected failures", cq.Tag, cq.Err)
 				}
 			}
+		}
+		// A Close that follows the caller's cancellation must not hide it: the query was canceled
+		// before any terminal state had been decided.
+		if cq.ClosedByMe && cq.CtxErrAtClose != nil && !errors.Is(cq.Err, cq.CtxErrAtClose) {
+			r.Violate("C20", "close-hides-cancellation", "query %s: the caller's context was already cancelled (%v) when Close was called, no terminal state had been decided, yet Err() = %v does not wrap the context error", cq.Tag, cq.CtxErrAtClose, cq.Err)
 		}
 		// C23 / C24 on this query's stats and attributed store calls.
 		var calls []Call
